@@ -144,15 +144,15 @@ def fail (db : DB) (why : String) : DB :=
   | some _ => db
   | none => { db with failed := some why }
 
-def ilookup (k : Key) : List (Key × Rec) → Option Rec
+def ilookup {α : Type} (k : Key) : List (Key × α) → Option α
   | [] => none
   | (j, r) :: t => if j = k then some r else ilookup k t
 
-def iset (k : Key) (r : Rec) : List (Key × Rec) → List (Key × Rec)
+def iset {α : Type} (k : Key) (r : α) : List (Key × α) → List (Key × α)
   | [] => [(k, r)]
   | (j, q) :: t => if j = k then (k, r) :: t else (j, q) :: iset k r t
 
-def ierase (k : Key) : List (Key × Rec) → List (Key × Rec)
+def ierase {α : Type} (k : Key) : List (Key × α) → List (Key × α)
   | [] => []
   | (j, q) :: t => if j = k then t else (j, q) :: ierase k t
 
@@ -313,23 +313,23 @@ def cleanupold (db : DB) (used : List Nat) : DB :=
 
 /-! ## writedatfile / defrag / sync (index_disk.go, db.go) -/
 
+/-- a sequence of `Write` calls on one bufio.Writer -/
+def bufWriteAll (sink : DB → Bytes → DB) (db : DB) (w : BufW) (ps : List Bytes) : DB × BufW :=
+  ps.foldl (fun st p => bufWrite sink st.1 st.2 p) (db, w)
+
+/-- the `binary.Write` / `Write` calls of writedatfile, in order -/
+def idxWrites (index : List (Key × Rec)) (ver : Nat) : List Bytes :=
+  [le32 ver] ++ index.flatMap (fun kr => [le64 kr.1, le32 kr.2.pos, le32 kr.2.len, le32 kr.2.seq, le32 kr.2.flags])
+    ++ [[0xff, 0xff, 0xff, 0xff], le32 ver, [0x46, 0x49, 0x4e, 0x49]]
+
+def idxSink (i : Nat) (db : DB) (b : Bytes) : DB := emit db "qdb.writedatfile:written" (.appendIdx i b)
+
 def writedatfile (db : DB) : DB :=
   let db := { db with datIdx := 1 - db.datIdx, verSeq := u32 (db.verSeq + 1) }
   let i := db.datIdx
   let db := emit db "qdb.writedatfile:created" (.createIdx i)
-  let sink := fun (db : DB) (b : Bytes) => emit db "qdb.writedatfile:written" (.appendIdx i b)
-  let (db, w) := bufWrite sink db {} (le32 db.verSeq)
-  let (db, w) := db.index.foldl (fun (st : DB × BufW) (kr : Key × Rec) =>
-      let (db, w) := st
-      let (db, w) := bufWrite sink db w (le64 kr.1)
-      let (db, w) := bufWrite sink db w (le32 kr.2.pos)
-      let (db, w) := bufWrite sink db w (le32 kr.2.len)
-      let (db, w) := bufWrite sink db w (le32 kr.2.seq)
-      bufWrite sink db w (le32 kr.2.flags)) (db, w)
-  let (db, w) := bufWrite sink db w [0xff, 0xff, 0xff, 0xff]
-  let (db, w) := bufWrite sink db w (le32 db.verSeq)
-  let (db, w) := bufWrite sink db w [0x46, 0x49, 0x4e, 0x49]
-  let db := bufFlush sink db w
+  let st := bufWriteAll (idxSink i) db {} (idxWrites db.index db.verSeq)
+  let db := bufFlush (idxSink i) st.1 st.2
   let db := { db with logOpen := false }
   let db := emit db "qdb.writedatfile:log-removed" .removeLog
   emit db "qdb.writedatfile:old-removed" (.removeIdx (1 - i))
@@ -351,57 +351,64 @@ def defragRec (sink : DB → Bytes → DB) (st : DB × BufW × List (Key × Rec)
       let r := freerec { r with pos := u32 fpos, seq := db.dataSeq }
       (db, w, acc ++ [(kr.1, r)])
 
-def defrag (db : DB) : DB :=
-  let db := { db with dataSeq := u32 (db.dataSeq + 1), datOpen := false }
-  let db := checkDat db
-  let seq := db.dataSeq
-  -- the underlying file is written sequentially from offset 4
-  let sink := fun (db : DB) (b : Bytes) =>
-    let size := ((dlookup seq db.fs.dats).getD []).length
-    emit db "qdb.defrag:data-written" (.writeDat seq size b)
-  let (db, w, recs) := db.index.foldl (defragRec sink) (db, ({} : BufW), [])
-  match db.failed with
-  | some _ => db
-  | none =>
-    let db := { db with index := recs }
-    let db := bufFlush sink db w
-    let db := writedatfile db
-    let db := cleanupold db (if recs.isEmpty then [] else [seq])
-    { db with extra := 0, pending := [] }
+/-- one Write syscall of defrag's bufio.Writer: the data file is written sequentially (from offset 4) -/
+def defragSink (seq : Nat) (db : DB) (b : Bytes) : DB :=
+  emit db "qdb.defrag:data-written" (.writeDat seq ((dlookup seq db.fs.dats).getD []).length b)
 
-/-- one pending key of sync(): data to the dat file, index entry to the buffer -/
+/-- the part of defrag after the browse: flush the data, write the index, clean up -/
+def defragFinish (seq : Nat) (db : DB) (w : BufW) (recs : List (Key × Rec)) : DB :=
+  let db := { db with index := recs }
+  let db := bufFlush (defragSink seq) db w
+  let db := writedatfile db
+  let db := cleanupold db (if recs.isEmpty then [] else [seq])
+  { db with extra := 0, pending := [] }
+
+/-- the first step of defrag: next data file -/
+def defragStart (db : DB) : DB := checkDat { db with dataSeq := u32 (db.dataSeq + 1), datOpen := false }
+
+def defrag (db : DB) : DB :=
+  let db := defragStart db
+  let st := db.index.foldl (defragRec (defragSink db.dataSeq)) (db, ({} : BufW), [])
+  match st.1.failed with
+  | some _ => st.1
+  | none => defragFinish db.dataSeq st.1 st.2.1 st.2.2
+
+/-- sync() for one pending key whose record `rc` holds `val`: data to the dat file (direct Write),
+    index entry to the bytes.Buffer, NO_CACHE data dropped -/
+def syncRec (db : DB) (bidx : Bytes) (k : Key) (rc : Rec) (val : Bytes) : DB × Bytes :=
+  let fpos := db.lastPos
+  let seq := db.dataSeq
+  let db := emit db "qdb.sync:data-written" (.writeDat seq fpos val)
+  let rc := { rc with pos := u32 fpos, seq := seq }
+  let rc' := if hasFlag rc.flags NO_CACHE then { rc with data := none } else rc
+  ({ db with lastPos := fpos + val.length, index := iset k rc' db.index }, bidx ++ encRec k rc)
+
+/-- one pending key of sync() -/
 def syncKey (st : DB × Bytes) (k : Key) : DB × Bytes :=
-  let (db, bidx) := st
-  match db.failed with
+  match st.1.failed with
   | some _ => st
   | none =>
-    match ilookup k db.index with
+    match ilookup k st.1.index with
     | some rc =>
       match rc.data with
-      | none => (fail db "panic", bidx)            -- Slice() of a record without data: nil dereference
-      | some val =>
-        let fpos := db.lastPos
-        let db := emit db "qdb.sync:data-written" (.writeDat db.dataSeq fpos val)
-        let db := { db with lastPos := fpos + val.length }
-        let rc := { rc with pos := u32 fpos, seq := db.dataSeq }
-        let bidx := bidx ++ encRec k rc
-        let rc := if hasFlag rc.flags NO_CACHE then { rc with data := none } else rc
-        ({ db with index := iset k rc db.index }, bidx)
-    | none => (db, bidx ++ encDel k)
+      | none => (fail st.1 "panic", st.2)          -- Slice() of a record without data: nil dereference
+      | some val => syncRec st.1 st.2 k rc val
+    | none => (st.1, st.2 ++ encDel k)
+
+/-- the end of sync(): one Write of the collected index entries, then possibly a forced defrag -/
+def syncFinish (db : DB) (bidx : Bytes) : DB :=
+  let db := emit (checkLog db) "qdb.sync:log-written" (.appendLog bidx)
+  let db := { db with pending := [] }
+  if db.extra > db.opts.forcedPerc * db.need / 100 then defrag db else db
 
 def sync (db : DB) : DB :=
   if db.volatile then db
   else if db.pending.isEmpty then db
   else
-    let db := checkDat db
-    let (db, bidx) := db.pending.foldl syncKey (db, [])
-    match db.failed with
-    | some _ => db
-    | none =>
-      let db := checkLog db
-      let db := emit db "qdb.sync:log-written" (.appendLog bidx)
-      let db := { db with pending := [] }
-      if db.extra > db.opts.forcedPerc * db.need / 100 then defrag db else db
+    let st := db.pending.foldl syncKey (checkDat db, [])
+    match st.1.failed with
+    | some _ => st.1
+    | none => syncFinish st.1 st.2
 
 def syncneeded (db : DB) : Bool :=
   if db.volatile then false
@@ -414,11 +421,13 @@ def syncneeded (db : DB) : Bool :=
 def newRec (v : Bytes) (flags : Nat) : Rec :=
   { data := some v, seq := 0, pos := 0, len := u32 v.length, flags := flags }
 
+/-- `db.PendingRecords[key] = true` -/
+def addPending (db : DB) (k : Key) : DB :=
+  if db.pending.contains k then db else { db with pending := db.pending ++ [k] }
+
 def afterChange (db : DB) (k : Key) : DB :=
   if db.volatile then { db with noSync := true }
-  else
-    let db := if db.pending.contains k then db else { db with pending := db.pending ++ [k] }
-    if syncneeded db then sync db else db
+  else if syncneeded (addPending db k) then sync (addPending db k) else addPending db k
 
 def putExt (db : DB) (k : Key) (v : Bytes) (flags : Nat) : DB :=
   if db.failed.isSome then db else afterChange (memput db k (newRec v flags)) k
